@@ -1415,6 +1415,7 @@ generate_pes_packet		(vbi_dvb_mux *		mx,
 	unsigned int p_left;
 	unsigned int last_line;
 	unsigned int last_du_size;
+	unsigned int du_size;
 	unsigned int packet_length;
 	unsigned int size;
 	vbi_bool fixed_length;
@@ -1454,6 +1455,9 @@ generate_pes_packet		(vbi_dvb_mux *		mx,
 
 	last_line = 0;
 
+	/* Size of the data unit stored last, for encode_stuffing(). */
+	last_du_size = 0;
+
 	for (;;) {
 		if (s < s_end) {
 			if (s->line > 0) {
@@ -1481,7 +1485,7 @@ generate_pes_packet		(vbi_dvb_mux *		mx,
 
 		err = insert_sliced_data_units (&p,
 						p_end - p,
-						&last_du_size,
+						&du_size,
 						&s_begin,
 						s - s_begin,
 						service_mask,
@@ -1490,6 +1494,11 @@ generate_pes_packet		(vbi_dvb_mux *		mx,
 			s = s_begin;
 			goto failed;
 		}
+
+		/* du_size is zero if no data unit was stored, e.g. in
+		   the final call after a raw VBI line. */
+		if (du_size > 0)
+			last_du_size = du_size;
 
 		if (s_begin < s) {
 			/* Not enough space to encode all sliced data. */
@@ -1525,7 +1534,7 @@ generate_pes_packet		(vbi_dvb_mux *		mx,
 
 		err = insert_raw_data_units (&p,
 					     p_end - p,
-					     &last_du_size,
+					     &du_size,
 					     &samples,
 					     mx->raw_samples_left,
 					     fixed_length,
@@ -1538,6 +1547,9 @@ generate_pes_packet		(vbi_dvb_mux *		mx,
 			mx->raw_samples_left = 0;
 			goto failed;
 		}
+
+		if (du_size > 0)
+			last_du_size = du_size;
 
 		mx->raw_samples_left = samples_end - samples;
 		if (mx->raw_samples_left > 0) {
@@ -1574,6 +1586,16 @@ generate_pes_packet		(vbi_dvb_mux *		mx,
 		   be a multiple of 184. */
 		if (remainder > 0)
 			p_left = 184 - remainder;
+	}
+
+	if (unlikely (1 == p_left && last_du_size >= 257)) {
+		/* One byte is too small for a stuffing data unit and
+		   a raw data unit of maximum size cannot take another
+		   stuffing byte, so we add one more TS packet payload.
+		   There is room: insert_raw_data_units() never ends a
+		   unit of this size one byte before p_end, and both
+		   max_packet_size and size + 1 are multiples of 184. */
+		p_left += 184;
 	}
 
 	size += p_left;
